@@ -12,14 +12,14 @@ RULE = ('cases = every set of 1..4 (thorough 5) ranges with (marker, start) draw
         'built through Multi_Range_Potential_Form / create_Multi_Range_Potential_Form and through potable text (first range '
         'optionally unmarked) and evaluated (value, deriv, deriv2) at r in {-1,0,.5,..,3.5} + nextafter(start, +-inf) in ascending, '
         'descending and interleaved order on the same object; non-trivial = set with >= 2 ranges')
-RULE += '; 9 constructions per listing order: class, factory, default_value=25 (also with one zero() range), public range_defns setter after other ranges, ranges without analytic derivatives, ranges offering .deriv only (deriv2 offered iff some range offers it), Multi_Range_Defn instances shared with two other potentials, potable text (marked / first range unmarked); sets that repeat a definition; 9, 10, 12 and 14 ranges in five structured orders'
+RULE += '; 9 constructions per listing order: class, factory, default_value=25 (also with one zero() range), public range_defns setter after other ranges, ranges without analytic derivatives, ranges offering .deriv only (deriv2 offered iff some range offers it), Multi_Range_Defn instances shared with two other potentials, potable text (marked / first range unmarked); sets that repeat a definition; 9, 10, 12 and 14 ranges in five structured orders; the caller\'s idioms on the public range_defns property (list from the getter extended and assigned back, +=, generator / reversed() over the current list) and copies (copy.deepcopy of class, factory and potable objects, copy.copy given other ranges) must select like a fresh object'
 ASSUMPTIONS = [
     'two ranges with identical marker AND start are outside the alphabet (the statement cannot be satisfied for them)',
     'for r strictly above a start shared by a ">=" and a ">" range the statement does not say which is used: either is accepted, '
     'but value, deriv and deriv2 must come from the same range and not depend on the listing or evaluation order',
     'quadratics with pairwise distinct value, slope and curvature identify the selected range from the observed numbers',
 ]
-BOUNDS = {'quick': 'sets of <= 4 ranges: 162 sets, 2080 ordered lists, x 9 constructions x 3 evaluation orders; 4 sets with repeated definitions; 12 sets of 9-14 ranges',
+BOUNDS = {'quick': 'sets of <= 4 ranges: 162 sets, 2080 ordered lists, x 16 constructions x 3 evaluation orders; 4 sets with repeated definitions; 12 sets of 9-14 ranges',
           'thorough': 'sets of <= 6 ranges (all listing orders, 720 per 6-set); <= 4 ranges incl. start -inf through the API; 9-14 ranges in 5 structured orders'}
 
 STARTS = [0.0, 1.0, 2.0, 3.0]
@@ -103,7 +103,7 @@ def deriv_only_quad(q):
     return f
 
 
-def build_api(order, direct, default=None, setter=False, numeric=False, zero_q=None, shared=False, derivonly=False):
+def build_api(order, direct, default=None, setter=False, numeric=False, zero_q=None, shared=False, derivonly=False, idiom=None):
     from atsim.potentials import create_Multi_Range_Potential_Form, Multi_Range_Defn
     from atsim.potentials._multi_range_potential_form import Multi_Range_Potential_Form_Deriv2
     from atsim.potentials import potentialforms as pf
@@ -123,6 +123,35 @@ def build_api(order, direct, default=None, setter=False, numeric=False, zero_q=N
         o3 = create_Multi_Range_Potential_Form(defs[-1], Multi_Range_Defn('>', 2.5, R.api_item(quad(6))), Multi_Range_Defn('>=', -1.0, R.api_item(quad(5))))
         o2(0.75), o3.deriv(2.75)
         return obj
+    if idiom == 'append-assign':
+        # the list handed out by the property is extended by the caller and assigned back (obj.range_defns += [...] does the same)
+        obj = Multi_Range_Potential_Form_Deriv2(*defs[:-1], **kw)
+        lst = obj.range_defns
+        lst.append(defs[-1])
+        obj.range_defns = lst
+        return obj
+    if idiom == 'iadd':
+        obj = Multi_Range_Potential_Form_Deriv2(*defs[1:], **kw)
+        obj.range_defns += [defs[0]]
+        return obj
+    if idiom == 'lazy-assign':
+        # a lazy iterable over the current list is assigned (filtering / reversing idioms)
+        obj = Multi_Range_Potential_Form_Deriv2(*defs, **kw)
+        obj(1.0)
+        obj.range_defns = (d for d in obj.range_defns)
+        obj.range_defns = reversed(obj.range_defns)
+        return obj
+    if idiom in ('deepcopy', 'copy'):
+        import copy
+        obj = Multi_Range_Potential_Form_Deriv2(*defs, **kw) if direct else create_Multi_Range_Potential_Form(*defs, **kw)
+        obj(2.0)
+        dup = copy.deepcopy(obj) if idiom == 'deepcopy' else copy.copy(obj)
+        if idiom == 'copy':
+            # the copy is given other ranges: the original keeps its own
+            dup.range_defns = [Multi_Range_Defn('>', 0.25, R.api_item(quad(7)))]
+            return obj
+        obj.range_defns = [Multi_Range_Defn('>', 0.25, R.api_item(quad(7)))]
+        return dup
     if setter:
         # built with other ranges first, then re-assigned through the public range_defns property
         other = [Multi_Range_Defn('>', 0.25, R.api_item(quad(7))), Multi_Range_Defn('>=', 2.75, R.api_item(quad(6))), Multi_Range_Defn('>', 5.0, R.api_item(quad(5)))]
@@ -172,9 +201,17 @@ def run_case(case):
                 ('factory with numerical ranges', build_api(order, False, numeric=True)),
                 ('factory with deriv-only ranges', build_api(order, False, derivonly=True)),
                 ('class default_value=25 and a zero() range', build_api(order, True, default=25.0, zero_q=order[0][2])),
-                ('class, range definitions shared with other potentials', build_api(order, True, shared=True))]
+                ('class, range definitions shared with other potentials', build_api(order, True, shared=True)),
+                ('class, list from the property extended and assigned back', build_api(order, True, idiom='append-assign')),
+                ('class, range_defns += [first]', build_api(order, True, idiom='iadd')),
+                ('class, lazy iterables over the current list assigned', build_api(order, True, idiom='lazy-assign')),
+                ('copy.deepcopy of the class object (original re-assigned afterwards)', build_api(order, True, idiom='deepcopy')),
+                ('copy.deepcopy of the factory object', build_api(order, False, idiom='deepcopy')),
+                ('class object whose copy.copy was given other ranges', build_api(order, True, idiom='copy'))]
         if not case['api_inf'] and build_cfg(order, False) is not None:
             objs.append(('potable', build_cfg(order, False)))
+            import copy as _copy
+            objs.append(('copy.deepcopy of the potable potential', _copy.deepcopy(build_cfg(order, False))))
             if order[0][0] == '>' and order[0][1] == 0.0:
                 objs.append(('potable-unmarked', build_cfg(order, True)))
         for how, f in objs:
